@@ -22,5 +22,5 @@ CONSTANTS
 INIT Init
 NEXT SmallNext
 VIEW view
-INVARIANTS NoConflictSent NoConflictProposal FlushBeforeVisible RecoveredState ResumeHeight WalSane
+INVARIANTS NoConflictSent NoConflictProposal FlushBeforeVisible RecoveredState ResumeHeight WalSane GracefulRestartIsNoOp
 CHECK_DEADLOCK FALSE
